@@ -7,6 +7,7 @@ import (
 	"fmt"
 	"io"
 	"reflect"
+	"sort"
 
 	"github.com/RoaringBitmap/roaring"
 	segment "github.com/blugelabs/bluge_segment_api"
@@ -114,4 +115,37 @@ func VerifStatePL(l segment.PostingsList) string {
 	return fmt.Sprintf("sb=%v po=%d fo=%d lo=%d cs=%d 1h=%d/%d postings=%s except=%s",
 		p.sb != nil, p.postingsOffset, p.freqOffset, p.locOffset, p.chunkSize, p.docNum1Hit, p.normBits1Hit,
 		verifBitmap(p.postings), verifBitmap(p.except))
+}
+
+// VerifMutexFree reports whether the FST-cache mutex of seg is free (the invariant
+// "no lock is held between calls"). It never blocks.
+func VerifMutexFree(seg segment.Segment) bool {
+	s, ok := seg.(*Segment)
+	if !ok {
+		return true
+	}
+	if s.m.TryLock() {
+		s.m.Unlock()
+		return true
+	}
+	return false
+}
+
+// VerifStateSeg summarises the lazily filled caches of a segment.
+func VerifStateSeg(seg segment.Segment) string {
+	s, ok := seg.(*Segment)
+	if !ok {
+		return fmt.Sprintf("foreign:%T", seg)
+	}
+	free := s.m.TryLock()
+	var fsts []int
+	if free {
+		for id := range s.fieldFSTs {
+			fsts = append(fsts, int(id))
+		}
+		s.m.Unlock()
+	}
+	sort.Ints(fsts)
+	return fmt.Sprintf("mutexFree=%v fsts=%v stored=%d/%d:%08x", free, fsts,
+		len(s.storedFieldChunkUncompressed), cap(s.storedFieldChunkUncompressed), verifFNV(s.storedFieldChunkUncompressed))
 }
